@@ -7,7 +7,10 @@ CONSTANTS
   ExclusiveHost = TRUE
   ChecksFlag = FALSE
   SyntheticWrite = TRUE
+  LastWins = TRUE
+  MaxDup = 1
+  MaxMeta = 0
 SPECIFICATION Spec
-INVARIANTS TypeOK Isolation NoTornRead Frozen CancelledOnlyIfPending VersionsDistinct
+INVARIANTS TypeOK Isolation NoTornRead Frozen CancelledOnlyIfPending VersionsDistinct NoIntermediate
 PROPERTIES Prompt
 CHECK_DEADLOCK TRUE
